@@ -48,3 +48,17 @@ Theorem C11_shared_state_ok_partial :
                                          c_fault := false |} sched)).
 Proof. exact shared_state_ok. Qed.
 Print Assumptions C11_shared_state_ok_partial.
+
+(* ---------- non-vacuity ---------- *)
+Example C11_env_wf_witness : env_wf toy_env.
+Proof. exact toy_env_wf. Qed.
+
+(* three goroutines (two on the same Regexp) interleaved action by action: all run to completion, the runner
+   pooled by one is picked up by the other, no ownership fault, and every result is the fresh one *)
+Example C11_schedule_witness :
+  let c := run_sched toy_env toy_fuel toy_c0 (toy_sched 40) in
+  map (fun t => (t_cur t, t_rest t, t_owned t)) (c_threads c) = [(None, [], []); (None, [], []); (None, [], [])]
+  /\ map (fun t => rev (t_done t)) (c_threads c) = map (map (fresh_result toy_env toy_fuel)) toy_opss
+  /\ c_fault c = false
+  /\ length (rs_pool (get_rs (c_g c) 0)) = 3%nat.
+Proof. vm_compute. repeat split. Qed.
